@@ -92,7 +92,7 @@ def py_lines_resolver(raw):
 def run(ctx):
     rng = ctx.rng
     nt = lambda c, i: i.startswith("(")
-    cases, meta = gen_cases(ctx, ctx.scale(1500, 12000), i64=False, rgb_any=False, tag="main")
+    cases, meta = gen_cases(ctx, ctx.scale(4000, 30000), i64=False, rgb_any=False, tag="main")
     impl, _ = ctx.correspond("paths", cases, nontrivial=nt, model=False)
     base = len(impl) - len(cases)
     for k, (exp, g, p, doc, sh) in enumerate(meta):
